@@ -805,10 +805,21 @@ impl HashColumn {
 		)? {
 			(Some(outcome), _) => Ok(outcome),
 			(None, Some(value_address)) => {
+				if index.id == tables.index.id {
+					return tables.index.write_insert_plan(key, value_address, Some(sub_index), log)
+				}
 				// If it was found in an older index we just insert a new entry. Reindex won't
 				// overwrite it.
-				let sub_index = if index.id == tables.index.id { Some(sub_index) } else { None };
-				tables.index.write_insert_plan(key, value_address, sub_index, log)
+				match tables.index.write_insert_plan(key, value_address, None, log)? {
+					PlanOutcome::NeedReindex => {
+						// The page of the current index is full, so nothing was inserted there. Dropping
+						// the new address would lose the key (its old slot is already released): record
+						// it in the entry of the older index instead, as a removal does. The migration
+						// moves the entry later and grows the index when it meets the full page.
+						index.write_insert_plan(key, value_address, Some(sub_index), log)
+					},
+					outcome => Ok(outcome),
+				}
 			},
 			(None, None) => {
 				log::trace!(target: "parity-db", "{}: Removing from index {}", tables.index.id, hex(key));
